@@ -725,6 +725,49 @@ func init() {
 					Repr: func(i int64) string {
 						return fmt.Sprintf("%s.Equals(%s)", pool[int(i)/len(pool)].label, pool[int(i)%len(pool)].label)
 					}},
+				{Name: "deep-and-long-arrays", N: int64(len(pumpCounts) * 4), Run: func(c *fw.Ctx, i int64) {
+					n := pumpCounts[int(i)/4]
+					nest := func(d int, leaf *variants.Variant) *variants.Variant {
+						v := leaf
+						for k := 0; k < d; k++ {
+							v = variants.VariantFromArray([]*variants.Variant{v})
+						}
+						return v
+					}
+					long := func(n int, last int) *variants.Variant {
+						xs := make([]*variants.Variant, n)
+						for k := range xs {
+							xs[k] = variants.VariantFromInteger(k)
+						}
+						xs[n-1] = variants.VariantFromInteger(last)
+						return variants.VariantFromArray(xs)
+					}
+					var a, b, b2 *variants.Variant
+					switch i % 4 {
+					case 0: // nested n deep, same leaf / different leaf
+						a, b, b2 = nest(n, variants.VariantFromInteger(1)), nest(n, variants.VariantFromInteger(1)), nest(n, variants.VariantFromInteger(2))
+					case 1: // nested n deep, leaf type differs
+						a, b, b2 = nest(n, variants.VariantFromInteger(1)), nest(n, variants.VariantFromInteger(1)), nest(n, variants.VariantFromString("1"))
+					case 2: // n elements, last differs
+						a, b, b2 = long(n, 7), long(n, 7), long(n, 8)
+					case 3: // growth to index n, clone, length
+						a = variants.VariantFromArray(nil)
+						a.SetByIndex(n, variants.VariantFromInteger(5))
+						b = a.Clone()
+						b2 = a.Clone()
+						b2.SetByIndex(n/2, variants.VariantFromInteger(6))
+						if a.Length() != n+1 || a.GetByIndex(n).AsInteger() != 5 || !a.GetByIndex(n/2).IsNull() {
+							c.Violation("growth-not-null-filled", "SetByIndex(%d) on an empty array: length %d", n, a.Length())
+						}
+					}
+					var eq1, eq2, eq3 bool
+					pv := fw.Try(func() { eq1, eq2, eq3 = a.Equals(b), a.Equals(b2), b2.Equals(a) })
+					c.Eval(3)
+					c.Nontrivial()
+					if pv != nil || !eq1 || eq2 || eq3 {
+						c.Violation("equals-on-deep-or-long-arrays", "shape %d size %d: equal arrays compare %v, arrays differing at the deepest/last element compare %v / %v (panic %v)", i%4, n, eq1, eq2, eq3, pv)
+					}
+				}, Repr: func(i int64) string { return fmt.Sprintf("array shape %d of size/depth %d", i%4, pumpCounts[int(i)/4]) }},
 				{Name: "histories", N: countStrings(k, depth), Run: func(c *fw.Ctx, i int64) { c20SeqRun(c, seqByIndex(k, i)) },
 					Repr: func(i int64) string { return "[" + c20Hist(seqByIndex(k, i)) + "]" }},
 			}
